@@ -694,14 +694,7 @@ def layouts(rng):
         if spec:
             prog["spec"] = spec
     elif kind == "region":
-        r, c = rng.choice([(6, 8), (8, 6), (12, 4)])
-        cr, cc = rng.choice([1, 2, 3]), rng.choice([2, 4])
-        inp = dict(shape=[r, c], chunks=[cr, cc], dtype="int64", seed=rng.randint(0, 9), pattern="lin", src="asarray")
-        tr, tcn = r * 2, c + cc * 2
-        r0 = cr * rng.randint(0, r // cr)
-        c0 = cc * rng.randint(0, 2)
-        steps = [dict(op="negative", args=[0]),
-                 dict(op="store_region", args=[1], kw=dict(tshape=[tr, tcn], tchunks=[cr, cc], region=[[r0, r0 + r], [c0, c0 + c]]))]
+        steps, inp = region_store_steps(rng)
         prog = dict(inputs=[inp], steps=steps, outs=[2], family="region")
     else:
         c = rng.choice([4, 6, 9])
@@ -754,3 +747,19 @@ def _count_copy_ops(prog):
         return len(list(_rechunk_plan(x, tuple(kw["chunks"]), min_mem=kw.get("min_mem"), allow_irregular=kw.get("allow_irregular", True))))
     except Exception:
         return 0
+
+
+def region_store_steps(rng):
+    """A region store at a chunk-aligned offset; the region may end at a ragged edge of the target (target extent not a
+    multiple of the chunk size) or strictly inside it."""
+    cr, cc = rng.choice([1, 2, 3]), rng.choice([2, 3, 4])
+    r = cr * rng.randint(1, 3) + rng.choice([0, rng.randint(0, cr - 1)])
+    c = cc * rng.randint(1, 2) + rng.choice([0, rng.randint(1, cc - 1)])
+    r0, c0 = cr * rng.randint(0, 3), cc * rng.randint(0, 2)
+    # a region whose stop is not chunk-aligned must end at the target's edge
+    tr = r0 + r + (cr * rng.randint(0, 2) if r % cr == 0 else 0)
+    tcn = c0 + c + (cc * rng.randint(0, 2) if c % cc == 0 else 0)
+    inp = dict(shape=[r, c], chunks=[cr, cc], dtype="int64", seed=rng.randint(0, 9), pattern="lin", src="asarray")
+    steps = [dict(op="negative", args=[0]),
+             dict(op="store_region", args=[1], kw=dict(tshape=[tr, tcn], tchunks=[cr, cc], region=[[r0, r0 + r], [c0, c0 + c]]))]
+    return steps, inp
